@@ -90,4 +90,29 @@ theorem fixed_rule_is_minimal (p c : BinOp) (x y : PExp) :
   simp only [printsParenFixed, printsParen, needParenRight, needParenLeft]
   cases p <;> cases c <;> decide
 
+/-! ### the same on the printed TEXT (`fmtExp` is the printer the byte-exact diff validates) -/
+
+/-- `x - (y - z)`, `x / (2 * y)` and `x - (y + z)` are printed without their parentheses … -/
+theorem text_dropped_parens :
+    fmtExp (.bin .sub (.var "x") (.bin .sub (.var "y") (.var "z"))) = "x - y - z"
+    ∧ fmtExp (.bin .div (.var "x") (.bin .mul (.int 2) (.var "y"))) = "x / 2 * y"
+    ∧ fmtExp (.bin .sub (.var "x") (.bin .add (.var "y") (.var "z"))) = "x - y + z" := by
+  simp [fmtExp, wrapPrec, varText, binOpText, Gen.binPrec, natDigits, digitChar]
+
+/-- … and the printed text of the first one is read back as a different tree. -/
+theorem text_format_changes_tree :
+    parseText (fmtExp (.bin .sub (.var "x") (.bin .sub (.var "y") (.var "z")))).toList
+      = .ok (.bin .sub (.bin .sub (.var "x") (.var "y")) (.var "z")) := by
+  rw [text_dropped_parens.1]
+  have hl : lex "x - y - z".toList = .ok (fmtToks (.bin .sub (.var "x") (.bin .sub (.var "y") (.var "z")))) := by decide
+  unfold parseText
+  rw [hl, parse_format_counterexample.2.2]
+
+/-- a prefix operator keeps the parentheses of its operand: `-(x + y)`, `not (a or b)` -/
+theorem text_unary_keeps_parens :
+    fmtExp (.un .neg (.bin .add (.var "x") (.var "y"))) = "-(x + y)"
+    ∧ fmtExp (.un .not (.bin .or (.var "a") (.var "b"))) = "not (a or b)"
+    ∧ fmtExp (.un .neg (.un .neg (.int 2))) = "-(-2)" := by
+  simp [fmtExp, wrapPrec, wrapLeaf, varText, binOpText, unOpText, PExp.isLeaf, Gen.binPrec, natDigits, digitChar]
+
 end Rooc.Props.C11
